@@ -327,6 +327,42 @@ async fn probe_ok(ctx: &Ctx) -> Result<(), String> {
     }
 }
 
+/// `reply:<len>:<first 16 bytes>` / `closed` — what is compared for a connection of a schedule
+/// (the reply text itself carries the wall clock and is tied by the `conn`/`cmd` lines)
+fn canon_reply(o: &[u8]) -> String {
+    if o.is_empty() { "closed".to_string() } else { format!("reply:{}:{}", o.len(), hex(&o[..o.len().min(16)])) }
+}
+
+struct SchedConn {
+    sock: Option<TcpStream>,
+    sent: Vec<u8>,
+    got: Vec<u8>,
+    result: Option<String>,
+    saw_timeout: bool,
+}
+
+impl SchedConn {
+    /// read until the server closes the connection; `pending` when nothing ends it within 3 s
+    async fn read_to_end(&mut self) -> String {
+        if let Some(r) = &self.result {
+            return r.clone();
+        }
+        let Some(k) = self.sock.as_mut() else { return "err:connect".into() };
+        let mut buf = [0u8; 8192];
+        let deadline = tokio::time::Instant::now() + Duration::from_secs(3);
+        loop {
+            match tokio::time::timeout_at(deadline, k.read(&mut buf)).await {
+                Err(_) => return "pending".into(),
+                Ok(Ok(0)) | Ok(Err(_)) => break, // closed (or reset after an error = closed)
+                Ok(Ok(n)) => self.got.extend_from_slice(&buf[..n]),
+            }
+        }
+        let r = canon_reply(&self.got);
+        self.result = Some(r.clone());
+        r
+    }
+}
+
 fn case_replay(ctx: &Ctx, line: &str) -> Vec<String> {
     let mut v = ctx.prelude.clone();
     v.push(line.to_string());
@@ -594,6 +630,103 @@ async fn run_line(s: &mut Session, ctx: &mut Ctx, line: &str) {
                 s.oracle_fail("server-wedged", &format!("after a storm the probe client failed: {e}"), &case_replay(ctx, line));
             }
             s.case(Some(line));
+        }
+        ["sched", evs] => {
+            // an interleaving of socket events over several connections (the model: srvRun);
+            // `r<i>` reads connection i until the server closes it (3 s → `pending`)
+            let Some(live) = ctx.live.as_ref() else {
+                s.line(line, "bad-op");
+                return;
+            };
+            let addr = live.tcp;
+            let mut conns: std::collections::BTreeMap<usize, SchedConn> = std::collections::BTreeMap::new();
+            let mut results: Vec<String> = vec![];
+            let mut bad = false;
+            let mut timed = false;
+            for tok in evs.split(',') {
+                if tok == "T" {
+                    // longer than the server's 10 s read timeout
+                    tokio::time::sleep(Duration::from_millis(11_000)).await;
+                    timed = true;
+                    for c in conns.values_mut() {
+                        c.saw_timeout = true;
+                    }
+                    continue;
+                }
+                let (kind, rest) = tok.split_at(tok.len().min(1));
+                let (idx, payload) = match rest.split_once(':') {
+                    Some((a, b)) => (a, Some(b)),
+                    None => (rest, None),
+                };
+                let Ok(i) = idx.parse::<usize>() else {
+                    bad = true;
+                    break;
+                };
+                let ok_shape = match kind {
+                    "d" => payload.and_then(unhex).is_some(),
+                    "e" | "r" => payload.is_none(),
+                    _ => false,
+                };
+                if !ok_shape {
+                    bad = true;
+                    break;
+                }
+                if !conns.contains_key(&i) {
+                    let sock = TcpStream::connect(addr).await.ok();
+                    conns.insert(i, SchedConn { sock, sent: vec![], got: vec![], result: None, saw_timeout: false });
+                }
+                let c = conns.get_mut(&i).expect("inserted");
+                match kind {
+                    "d" => {
+                        let b = payload.and_then(unhex).expect("checked");
+                        if c.result.is_none() {
+                            c.sent.extend_from_slice(&b);
+                        }
+                        if let Some(k) = c.sock.as_mut() {
+                            let _ = k.write_all(&b).await;
+                            let _ = k.flush().await;
+                        }
+                    }
+                    "e" => {
+                        if let Some(k) = c.sock.as_mut() {
+                            let _ = k.shutdown().await;
+                        }
+                    }
+                    _ => results.push(c.read_to_end().await),
+                }
+            }
+            if bad {
+                s.line(line, "bad-op");
+                return;
+            }
+            let resp = if results.is_empty() { "-".to_string() } else { results.join(",") };
+            s.line(line, &resp);
+            // O: the server goes on answering while the unterminated connections are still open
+            if let Err(e) = probe_ok(ctx).await {
+                s.oracle_fail("server-wedged", &format!("with the schedule's connections open the probe client failed: {e}"), &case_replay(ctx, line));
+            }
+            // O (isolation): every answered connection got what its own bytes get alone
+            for (i, c) in &conns {
+                let Some(got) = &c.result else { continue };
+                if c.saw_timeout && timed {
+                    continue; // closed by the read timeout: a lone replay with a half-close differs by design
+                }
+                let alone = match raw_tcp(addr, &c.sent, true).await {
+                    Ok(o) => canon_reply(&o),
+                    Err(e) => format!("err:{e}"),
+                };
+                if &alone != got {
+                    s.oracle_fail(
+                        "conn-not-isolated",
+                        &format!("connection {i} of the schedule was answered {got}, its {} bytes alone are answered {alone}", c.sent.len()),
+                        &case_replay(ctx, line),
+                    );
+                } else {
+                    s.tally("oracle:conn-isolated-ok");
+                }
+            }
+            drop(conns);
+            s.case(if resp.contains("reply:") { Some(line) } else { None });
         }
         ["http", _, p] => {
             let (Some(live), Some(p)) = (ctx.live.as_ref(), unhx(p)) else {
@@ -898,7 +1031,116 @@ fn malformed_requests(rng: &mut Rng, products: &[String]) -> Vec<Vec<u8>> {
     v
 }
 
-fn gen_case(rng: &mut Rng, idx: usize, thorough: bool) -> Vec<String> {
+/// one schedule: several connections with their own scripts, merged in a random order that keeps
+/// each connection's own order. `pending_read`: also read a connection whose line is still open.
+fn gen_sched(rng: &mut Rng, products: &[String], pending_read: bool, with_timeout: bool) -> String {
+    let good: Vec<String> = products.iter().filter(|p| addressable_tcp(p)).cloned().collect();
+    let nconn = rng.range(3, 6) as usize;
+    let mut scripts: Vec<Vec<String>> = vec![];
+    let split = |rng: &mut Rng, b: &[u8]| -> Vec<Vec<u8>> {
+        // 1..3 non-empty segments
+        let mut cuts: Vec<usize> = (0..rng.below(3)).map(|_| rng.below(b.len() as u64 + 1) as usize).collect();
+        cuts.sort_unstable();
+        let mut out = vec![];
+        let mut last = 0;
+        for c in cuts {
+            if c > last {
+                out.push(b[last..c].to_vec());
+                last = c;
+            }
+        }
+        if last < b.len() || out.is_empty() {
+            out.push(b[last..].to_vec());
+        }
+        out.into_iter().filter(|x| !x.is_empty()).collect()
+    };
+    for i in 0..nconn {
+        let mut sc = vec![];
+        let kind = if i == 0 { 4 } else if i == 1 { 0 } else { rng.below(7) };
+        let line: Vec<u8> = match kind {
+            0 | 5 | 6 if !good.is_empty() => {
+                let p = rng.pick(&good).clone();
+                let v = *rng.pick(&["v1", "v2"]);
+                let ep = *rng.pick(&["versions", "cdns", "bgdl"]);
+                format!("{v}/products/{p}/{ep}").into_bytes()
+            }
+            0 | 5 | 6 => b"v1/summary".to_vec(),
+            1 => (*rng.pick(&[&b"v3/x"[..], &b"\xff\xfe"[..], &b"v1/products/nosuch/versions"[..], &b""[..], &b"v2/products/wow"[..], &b"  v1/summary  "[..]])).to_vec(),
+            2 => b"v1/summary".to_vec(),
+            3 => vec![],
+            _ => (*rng.pick(&[&b"v1/products/wow/versions"[..], &b"v2/prod"[..], &b"\xff"[..], &b"GET / HTTP/1.1\r"[..]])).to_vec(),
+        };
+        match kind {
+            // a terminated line, in segments; sometimes a half-close too; then read
+            0 | 1 | 5 | 6 => {
+                let mut b = line.clone();
+                b.extend_from_slice(*rng.pick(&[&b"\r\n"[..], &b"\n"[..], &b"\r\nv2/products/wow/cdns\r\n"[..]]));
+                for seg in split(rng, &b) {
+                    sc.push(format!("d{i}:{}", hex(&seg)));
+                }
+                if rng.chance(1, 3) {
+                    sc.push(format!("e{i}"));
+                }
+                sc.push(format!("r{i}"));
+                if rng.chance(1, 4) {
+                    sc.push(format!("d{i}:{}", hex(b"v2/products/wow/cdns\r\n")));
+                    sc.push(format!("r{i}"));
+                }
+            }
+            // no line end: the half-close ends the line
+            2 => {
+                for seg in split(rng, &line) {
+                    sc.push(format!("d{i}:{}", hex(&seg)));
+                }
+                sc.push(format!("e{i}"));
+                sc.push(format!("r{i}"));
+            }
+            // nothing at all, then a half-close
+            3 => {
+                sc.push(format!("e{i}"));
+                sc.push(format!("r{i}"));
+            }
+            // held open: a line that is never terminated
+            _ => {
+                for seg in split(rng, &line) {
+                    sc.push(format!("d{i}:{}", hex(&seg)));
+                }
+                if pending_read {
+                    // still pending while others are served; completed and read at the end
+                    sc.push(format!("r{i}"));
+                    sc.push(format!("d{i}:{}", hex(b"\n")));
+                    sc.push(format!("r{i}"));
+                }
+            }
+        }
+        scripts.push(sc);
+    }
+    // random merge
+    let mut pos = vec![0usize; scripts.len()];
+    let mut out: Vec<String> = vec![];
+    loop {
+        let live: Vec<usize> = (0..scripts.len()).filter(|&k| pos[k] < scripts[k].len()).collect();
+        if live.is_empty() {
+            break;
+        }
+        let k = *rng.pick(&live);
+        out.push(scripts[k][pos[k]].clone());
+        pos[k] += 1;
+    }
+    if with_timeout {
+        // one more connection holds an open line across the server's read timeout, and a
+        // connection opened after it is served
+        let h = scripts.len();
+        out.insert(0, format!("d{h}:{}", hex(b"v1/products/wow/versions")));
+        out.push("T".into());
+        out.push(format!("r{h}"));
+        out.push(format!("d{}:{}", h + 1, hex(b"v1/summary\r\n")));
+        out.push(format!("r{}", h + 1));
+    }
+    format!("sched {}", out.join(","))
+}
+
+fn gen_case(rng: &mut Rng, idx: usize, thorough: bool, seed: u64) -> Vec<String> {
     let mut lines = vec![];
     let hosts = (*rng.pick(&["cdn.test.com", "a.example b.example", "  lead.example  x", "", "   ", "h|x", "cdn.arctium.tools", "é.example"])).to_string();
     let path = (*rng.pick(&["tpr/wow", "test/path", "x ", "", "a|b", "tpr/wow"])).to_string();
@@ -984,6 +1226,25 @@ fn gen_case(rng: &mut Rng, idx: usize, thorough: bool) -> Vec<String> {
         }
         lines.push(format!("storm 4 {}", mix.join(",")));
     }
+    // the additions below draw from their own stream (one per database), so the cases above are
+    // the same as before they existed
+    let rng = &mut Rng::new(seed.wrapping_mul(0x9e37_79b9_7f4a_7c15) ^ (idx as u64 + 0x5ced));
+    // interleaved connections (isolation): every third database, all in thorough
+    if idx % 3 == 1 || thorough {
+        for k in 0..2 {
+            let pending_read = k == 0 && (idx == 4 || (thorough && idx % 16 == 4));
+            let with_timeout = thorough && k == 1 && (idx == 10 || idx == 200);
+            lines.push(gen_sched(rng, &products, pending_read, with_timeout));
+        }
+    }
+    // a few more raw HTTP paths outside the table
+    for p in asked.iter().filter(|p| addressable_http(p)).take(1) {
+        for path in [format!("/{p}/Versions"), format!("/{p}//cdns"), format!("//{p}/cdns"), format!("/{p}/cdns/x"), "/versions".to_string()] {
+            if rng.chance(1, 2) {
+                lines.push(format!("http 0 {}", hx(&path)));
+            }
+        }
+    }
     lines
 }
 
@@ -1042,7 +1303,7 @@ fn main() {
         let mut rng = Rng::new(args.seed);
         let ndb = if args.thorough() { 400 } else { 36 };
         for i in 0..ndb {
-            let lines = gen_case(&mut rng, i, args.thorough());
+            let lines = gen_case(&mut rng, i, args.thorough(), args.seed);
             run_case(&mut s, &lines).await;
         }
         let mut ctx = Ctx::default();
